@@ -36,11 +36,36 @@ class World:
         self.anns = [data.SoundEventAnnotation(uuid=U(200 + i), sound_event=self.ses[se_of[i]], created_on=T0) for i in range(6)]
         self.preds = [data.SoundEventPrediction(uuid=U(300 + i), sound_event=self.ses[se_of[i]], score=0.5) for i in range(6)]
 
-    def clip_ann(self, ac, anns):
-        return self.data.ClipAnnotation(uuid=U(400 + ac), clip=self.clips[ac], sound_events=[self.anns[i] for i in anns], created_on=T0)
+    def clip_ann(self, ac, anns, hist=None):
+        mk = lambda idx: self.data.ClipAnnotation(uuid=U(400 + ac), clip=self.clips[ac], sound_events=[self.anns[i] for i in idx], created_on=T0)
+        if hist is None:
+            return mk(anns)
+        return self._derive(mk(hist[0]), [self.anns[i] for i in anns], hist[2], other=lambda: self.clip_pred(ac, []))
 
-    def clip_pred(self, pc, preds):
-        return self.data.ClipPrediction(uuid=U(500 + pc), clip=self.clips[pc], sound_events=[self.preds[i] for i in preds])
+    def clip_pred(self, pc, preds, hist=None):
+        mk = lambda idx: self.data.ClipPrediction(uuid=U(500 + pc), clip=self.clips[pc], sound_events=[self.preds[i] for i in idx])
+        if hist is None:
+            return mk(preds)
+        return self._derive(mk(hist[1]), [self.preds[i] for i in preds], hist[2], other=lambda: self.clip_ann(pc, []))
+
+    def _derive(self, obj0, sound_events, via, other):
+        """history: `obj0` (other sound events) was already part of a valid clip evaluation; the wanted list is then put on a
+        copy (model_copy(update=...)) or on the object itself"""
+        data = self.data
+        try:
+            o = other()
+            if isinstance(obj0, data.ClipAnnotation):
+                ms = [data.Match(source=None, target=a, affinity=0.0) for a in obj0.sound_events]
+                data.ClipEvaluation(annotations=obj0, predictions=o, matches=ms)
+            else:
+                ms = [data.Match(source=p, target=None, affinity=0.0) for p in obj0.sound_events]
+                data.ClipEvaluation(annotations=o, predictions=obj0, matches=ms)
+        except Exception:
+            pass
+        if via == "copy":
+            return obj0.model_copy(update={"sound_events": sound_events})
+        obj0.sound_events = sound_events
+        return obj0
 
 
 def _f(x):
@@ -128,6 +153,15 @@ class C04(Prop):
         out = []
         n = {"quick": 500, "thorough": 9000}[tier]
         out += [self._arr_case(rng) for _ in range(n)]
+        # history: the clip annotation / prediction was derived (model_copy(update=...) or assignment) from one with other
+        # sound events that had already been evaluated
+        for _ in range(n // 4):
+            c = self._arr_case(rng)
+            if c["kind"] != "clip_eval":
+                continue
+            pool = list(range(6))
+            c["hist"] = [sorted(rng.sample(pool, rng.randint(0, 4))), sorted(rng.sample(pool, rng.randint(0, 4))), rng.choice(["copy", "assign"])]
+            out.append(c)
         if tier == "thorough":
             # exhaustive small arrangements: <=2 anns, <=2 preds, <=3 matches over {None,0,1,4}
             opts = [None, 0, 1, 4]
@@ -182,7 +216,7 @@ class C04(Prop):
         res = {}
 
         def build_ctor():
-            ca, cp = w.clip_ann(c["ac"], c["anns"]), w.clip_pred(c["pc"], c["preds"])
+            ca, cp = w.clip_ann(c["ac"], c["anns"], c.get("hist")), w.clip_pred(c["pc"], c["preds"], c.get("hist"))
             ms = []
             for i, (s, t) in enumerate(c["ms"]):
                 ms.append(data.Match(uuid=U(1000 + i), source=None if s is None else w.preds[s], target=None if t is None else w.anns[t],
@@ -192,7 +226,12 @@ class C04(Prop):
         res["ctor"] = guarded(build_ctor)
 
         def as_dict(mode):
-            ca, cp = w.clip_ann(c["ac"], c["anns"]), w.clip_pred(c["pc"], c["preds"])
+            # instances (with their history) on the python path, plain data on the JSON path
+            ca, cp = w.clip_ann(c["ac"], c["anns"], c.get("hist")), w.clip_pred(c["pc"], c["preds"], c.get("hist"))
+            if mode == "python" and c.get("hist"):
+                return {"uuid": U(1100), "annotations": ca, "predictions": cp, "score": _f(c["score"]),
+                        "matches": [{"uuid": U(1000 + i), "source": None if s is None else w.preds[s], "target": None if t is None else w.anns[t],
+                                     "affinity": float(c["affs"][i]), "score": _f(c["mscores"][i])} for i, (s, t) in enumerate(c["ms"])]}
             ms = []
             for i, (s, t) in enumerate(c["ms"]):
                 ms.append({
